@@ -210,3 +210,45 @@ def conflict_rename_only_renames(w: World, path: str):
             if c.ok and c.result == r[1] and c.args[1] == r[2]:
                 found = True
         check(found, "which are those of a rename that succeeded")
+
+
+@lemma(props=["C03", "C04", "C02", "C12"], configs="sides", raises=["Exception"],
+       stubs={"cloudsync.sync.manager:SyncManager.mkdir_synced": {"havoc": False},
+              "cloudsync.sync.manager:SyncManager.create_synced": {"havoc": False},
+              "cloudsync.sync.manager:SyncManager.handle_rename": {"havoc": False},
+              "cloudsync.sync.manager:SyncManager.handle_corrupt": {"results": ["FINISHED"], "havoc": False},
+              "cloudsync.sync.manager:SyncManager.download_changed": {"results": ["True", "False"], "havoc": False},
+              # only the truthiness of the result is used ("are there children that are not deletions")
+              "cloudsync.sync.manager:SyncManager._get_child_conflict": {"results": ["None", "entry"], "raises": False, "havoc": False},
+              "cloudsync.sync.manager:SyncManager.check_disjoint_create": {"results": ["True", "False"], "havoc": True}})
+def path_change_or_creation_dispatch(w: World):
+    """L3.7 / L4.4 / L12.4: how a path change or a new object is mirrored: a path the application's translation declines is
+    finished without touching anything; at most one of mkdir / create / rename is attempted, always with the translation
+    of the entry's own path; mkdir and create only while the entry is a creation (its peer has no id, is tombstoned or
+    corrupt-gone) -- so a live peer is never duplicated -- mkdir for folders, create for everything else and only after the
+    content was fetched; a rename only for an entry that is not a creation and not corrupt; the function itself asks
+    nothing of the providers"""
+    mgr = w.mgr
+    sync = w.entry("sync")
+    changed = w.changed
+    synced = w.synced
+    tp = mgr.translate(synced, sync[changed].path)
+    r = mgr.handle_path_change_or_creation(sync, changed, synced)
+    mk = calls("mkdir_synced")
+    cr = calls("create_synced")
+    rn = calls("handle_rename")
+    dl = calls("download_changed")
+    check(len(provider_calls()) == 0, "the dispatcher itself makes no provider call")
+    check(len(mk) + len(cr) + len(rn) <= 1, "at most one mirroring action")
+    if tp is None:
+        check(r == FINISHED and len(mk) + len(cr) + len(rn) + len(dl) == 0, "a path outside the translation is left alone")
+    for c in mk:
+        check(c.args[0] == changed and c.args[1] is sync and c.args[2] == tp, "mkdir of the translated path of this entry")
+        check(sync.is_creation(changed) and sync[changed].otype == DIRECTORY, "only for a folder that is a creation")
+    for c in cr:
+        check(c.args[0] == changed and c.args[1] is sync and c.args[2] == tp, "create at the translated path of this entry")
+        check(truthy(sync.is_creation(changed)) and sync[changed].otype != DIRECTORY, "only for a non-folder that is a creation")
+        check(len(dl) == 1, "and only after its content was fetched")
+    for c in rn:
+        check(c.args[0] is sync and c.args[1] == changed and c.args[2] == synced and c.args[3] == tp, "rename to the translated path of this entry")
+        check(not sync.is_creation(changed) and not sync[changed].is_corrupt, "only for an entry that is neither a creation nor corrupt")
